@@ -1409,6 +1409,7 @@ class Explorer:
         self.obs = []
         self.labels = []
         self.reached = False
+        self._base_scopes = 0
         self._le32_back = {}
         self._le32_memo = {}
         self._keep = []
@@ -1686,10 +1687,44 @@ class Explorer:
                 out[name] = str(v)
         return out
 
-    def path_model(self):
+    def path_model(self, diverse=None):
+        """a model of the path condition; with diverse=<random.Random> the symbolic inputs are pushed away from z3's default
+        (all-zero) values where the path condition allows it, so that native validation runs see varied data"""
         if self._check() != z3.sat:
             return None
-        return self.solver.model()
+        if diverse is None:
+            return self.solver.model()
+        self.solver.push()
+        try:
+            names = list(self.var_order)
+            diverse.shuffle(names)
+            tried = 0
+            for nm in names:
+                if tried >= 10:
+                    break
+                v = self.vars[nm]
+                if not z3.is_int(v):
+                    continue
+                tried += 1
+                cand = diverse.choice([1, 2, 0x41, 0x7F, 0x80, 0xC3, 0xE2, 0xFF, 0x100, 0xFFFF, 0x10000, 0x7FFFFFFF, 0x80000000, 0xFFFFFFFE, 0xFFFFFFFF])
+                self.solver.push()
+                self.solver.add(v == cand)
+                if self._check() == z3.sat:
+                    continue          # keep it (stay one level deeper)
+                self.solver.pop()
+                self.solver.push()
+                self.solver.add(v != 0)
+                if self._check() != z3.sat:
+                    self.solver.pop()
+            if self._check() != z3.sat:
+                return None
+            m = self.solver.model()
+            # evaluate now: the model object stays valid after pop in z3py (it is a snapshot)
+            return m
+        finally:
+            # pop everything pushed in this call
+            while self.solver.num_scopes() > self._base_scopes:
+                self.solver.pop()
 
     def observe(self, label, value):
         self.obs.append((label, value))
